@@ -126,7 +126,8 @@ pub fn install_panic_hook() {
             .map(|s| s.to_string())
             .or_else(|| info.payload().downcast_ref::<String>().cloned())
             .unwrap_or_else(|| "<non-string panic>".into());
-        if msg.contains("KMC-EXPECTED-UNWIND") {
+        if msg.contains("KMC-EXPECTED-UNWIND") || msg.contains("polled after result is already returned") {
+            // expected / documented panics the interpreter catches on purpose
             return;
         }
         let loc = info.location().map(|l| format!(" @{}:{}", l.file(), l.line())).unwrap_or_default();
